@@ -278,6 +278,8 @@ func WorkerMain(t *testing.T) {
 		for range c {
 		}
 	}(logger.Messages)
+	// HIDI needs no deep stacks: let unbounded recursion die quickly (and cheaply) instead of growing to 1 GB
+	debug.SetMaxStack(96 << 20)
 	// wall-clock watchdog per run: a run that does not finish is either a busy loop without any scheduling
 	// point in the program under test (reported as a hang of the property under check when a running
 	// goroutine is inside HIDI) or a harness problem (exit 2)
